@@ -99,6 +99,17 @@ def _vstack(arrs):
     return NDArr(data, (sum(a.shape[0] for a in arrs),) + tuple(arrs[0].shape[1:]))
 
 
+def _mte_record(repo, *values):
+    """What get_modified_terminal_element returns: the repository's own NamedTuple (a record with its field names, usable as a tuple)."""
+    import ast as _ast
+
+    c = repo.mod(ET).classes.get("ModifiedTerminalElement")
+    fields = [st.target.id for st in c.body if isinstance(st, _ast.AnnAssign) and isinstance(st.target, _ast.Name)] if c is not None else []
+    if len(fields) != len(values):
+        return tuple(values)
+    return Node("ModifiedTerminalElement", **dict(zip(fields, values)), __fields__=list(fields))
+
+
 @rule(
     "GEN-TABLES",
     ["C03", "C02", "C08", "C05", "C19", "C04"],
@@ -140,7 +151,7 @@ def gen_tables(repo, res):
         it = install_arrays(Interp(repo, load_classes(repo), primary=ET))
         it.overrides["np.vstack"] = _PyCall(_vstack)
         it.overrides["clamp_table_small_numbers"] = _PyCall(lambda t, **k: t)
-        it.overrides["get_modified_terminal_element"] = _PyCall(lambda t: (t.f["el"], t.f["avg"], t.f["ld"], t.f["fc"]))
+        it.overrides["get_modified_terminal_element"] = _PyCall(lambda t: _mte_record(repo, t.f["el"], t.f["avg"], t.f["ld"], t.f["fc"]))
         it.overrides["ufl.algorithms.sort_elements"] = _PyCall(lambda els: list(els))
         it.overrides["ufl.algorithms.analysis.extract_sub_elements"] = _PyCall(lambda els: list(els))
         it.overrides["default_rtol"] = 0
@@ -262,7 +273,7 @@ def gen_tables(repo, res):
     it.overrides["clamp_table_small_numbers"] = _PyCall(lambda t, **k: t)
     pt = cell("vertex", 0)
     bad_mt = mt("lam", element(0, "varying", 1, pt))
-    it.overrides["get_modified_terminal_element"] = _PyCall(lambda t: (t.f["el"], t.f["avg"], t.f["ld"], t.f["fc"]))
+    it.overrides["get_modified_terminal_element"] = _PyCall(lambda t: _mte_record(repo, t.f["el"], t.f["avg"], t.f["ld"], t.f["fc"]))
     it.overrides["ufl.algorithms.sort_elements"] = _PyCall(lambda els: list(els))
     it.overrides["ufl.algorithms.analysis.extract_sub_elements"] = _PyCall(lambda els: list(els))
     it.overrides["get_ffcx_table_values"] = _PyCall(lambda *a, **k: {"array": NDArr([[[[Fr(1)]]]], (1, 1, 1, 1)), "offset": 0, "stride": 1})
@@ -283,7 +294,7 @@ def gen_tables(repo, res):
         it.overrides["clamp_table_small_numbers"] = _PyCall(lambda t, **k: t)
         pc = cell(cname, 3)
         vmt = [mt("u+", element(0, "varying", 3, pc), "+"), mt("u-", element(0, "varying", 3, pc), "-")]
-        it.overrides["get_modified_terminal_element"] = _PyCall(lambda t: (t.f["el"], t.f["avg"], t.f["ld"], t.f["fc"]))
+        it.overrides["get_modified_terminal_element"] = _PyCall(lambda t: _mte_record(repo, t.f["el"], t.f["avg"], t.f["ld"], t.f["fc"]))
         it.overrides["ufl.algorithms.sort_elements"] = _PyCall(lambda els: list(els))
         it.overrides["ufl.algorithms.analysis.extract_sub_elements"] = _PyCall(lambda els: list(els))
         it.overrides["default_rtol"] = 0
